@@ -494,7 +494,39 @@ class SArr:
         return out
 
     def _scatter(self, idx, value):
-        raise Unsupported("fancy-index assignment")
+        """x[idx] = value for an index array that is (a) a permutation from the argsort model (inverse function known) or
+        (b) the enumeration of a mask from the nonzero model (rank function known)"""
+        base = self.store.term()
+        off, n = self.off, self.n
+        q = z3.Int(eng().fresh_name("w"))
+        k = self.kind
+        inv = getattr(idx, "_perm_inv", None)
+        if inv is not None:
+            eng().prove("safety:index", idx.n == n, "permutation index array must have the target's length")
+            if isinstance(value, SArr):
+                eng().prove("safety:broadcast", value.n == idx.n, "value length must match the index array")
+                vs, vk = value.snapshot(), value.kind
+                body = z3.If(z3.And(q >= off, q < off + n), k.lift(vk.wrap(vs(inv(q - off)))), z3.Select(base, q))
+            else:
+                body = z3.If(z3.And(q >= off, q < off + n), k.lift(value), z3.Select(base, q))
+            self.store.arr = z3.Lambda([q], body)
+            return
+        nz = getattr(idx, "_nz_of", None)
+        if nz is not None:
+            mask, rank = nz
+            eng().prove("safety:index", mask.n <= n, "mask-derived indices must lie inside the target")
+            m = mask.snapshot()
+            mk = mask.kind
+            hit = z3.And(q >= off, q < off + mask.n, zbool(mk.wrap(m(q - off))))
+            if isinstance(value, SArr):
+                eng().prove("safety:broadcast", value.n == idx.n, "value length must match the index array")
+                vs, vk = value.snapshot(), value.kind
+                body = z3.If(hit, k.lift(vk.wrap(vs(rank(q - off)))), z3.Select(base, q))
+            else:
+                body = z3.If(hit, k.lift(value), z3.Select(base, q))
+            self.store.arr = z3.Lambda([q], body)
+            return
+        raise Unsupported("fancy-index assignment with an index array of unknown structure")
 
     # -- element-wise operators -------------------------------------------
     def _ew(self, o, f, kind=None, rev=False):
